@@ -140,6 +140,10 @@ func generate(prop string, seed uint64, run int, tier string) *Scenario {
 		sc.BE.Cfg.LogMask = mask
 	}
 
+	if sc.TR != nil && sc.TR.Mode == "http" && chance(lr, 0.4) {
+		sc.TR.Logger, sc.TR.LogMask = true, mask
+	}
+
 	// what failing builders' errors wrap (same separate generator)
 	if sc.FO != nil {
 		if prop != "C03" { // a dimension of C03's table
